@@ -372,3 +372,65 @@ def unflatten_schedules(fn: ast.FunctionDef):
 
     fn.body = rewrite(fn.body)
     return ast.fix_missing_locations(fn)
+
+
+# ------------------------------------------------------------------------------------------ zip(order, X[order]) walked in parallel
+def unzip_gathers(fn: ast.FunctionDef):
+    """`for j, xj in zip(a, X[a]): BODY`  ->  `for j in a: BODY[xj := X[j]]`  (also `zip(X[a], a)`; `X[a]` may be `X[a, :]` or
+    `X.index_select(0, a)`): element k of `X[a]` is row a[k] of X, so the second loop variable is a name for `X[j]`. Only applied
+    when the loop body does not rebind either variable. Returns a rewritten deep copy."""
+    fn = copy.deepcopy(fn)
+
+    def gathered(e, idx_name):
+        """X when e is X[idx] / X[idx, :] / X.index_select(0, idx)."""
+        if isinstance(e, ast.Subscript):
+            s = e.slice
+            if isinstance(s, ast.Name) and s.id == idx_name:
+                return e.value
+            if isinstance(s, ast.Tuple) and s.elts and isinstance(s.elts[0], ast.Name) and s.elts[0].id == idx_name and \
+                    all(isinstance(x, ast.Slice) and x.lower is None and x.upper is None and x.step is None for x in s.elts[1:]):
+                return e.value
+        if isinstance(e, ast.Call) and isinstance(e.func, ast.Attribute) and e.func.attr == "index_select" and len(e.args) == 2 and \
+                isinstance(e.args[0], ast.Constant) and e.args[0].value == 0 and isinstance(e.args[1], ast.Name) and e.args[1].id == idx_name:
+            return e.func.value
+        return None
+
+    class T(ast.NodeTransformer):
+        def visit_For(self, node):
+            self.generic_visit(node)
+            it, tg = node.iter, node.target
+            if not (isinstance(it, ast.Call) and isinstance(it.func, ast.Name) and it.func.id == "zip" and len(it.args) == 2 and not it.keywords
+                    and isinstance(tg, ast.Tuple) and len(tg.elts) == 2 and all(isinstance(x, ast.Name) for x in tg.elts)):
+                return node
+            for a_pos in (0, 1):
+                idx, oth = it.args[a_pos], it.args[1 - a_pos]
+                if not isinstance(idx, ast.Name):
+                    continue
+                base = gathered(oth, idx.id)
+                if base is None:
+                    continue
+                jn, xn = tg.elts[a_pos].id, tg.elts[1 - a_pos].id
+                stores = {n.id for b in node.body for n in ast.walk(b) if isinstance(n, ast.Name) and isinstance(n.ctx, ast.Store)}
+                if {jn, xn} & stores:
+                    continue
+
+                class S(ast.NodeTransformer):
+                    def visit_Name(self, n):
+                        if n.id == xn and isinstance(n.ctx, ast.Load):
+                            return ast.Subscript(value=copy.deepcopy(base), slice=ast.Name(id=jn, ctx=ast.Load()), ctx=ast.Load())
+                        return n
+
+                    def visit_Subscript(self, n):
+                        # xj[k] is X[j, k]
+                        if isinstance(n.value, ast.Name) and n.value.id == xn and isinstance(n.ctx, ast.Load) and not isinstance(n.slice, (ast.Tuple, ast.Slice)):
+                            k_ = self.visit(n.slice)
+                            return ast.Subscript(value=copy.deepcopy(base), slice=ast.Tuple(elts=[ast.Name(id=jn, ctx=ast.Load()), k_], ctx=ast.Load()), ctx=ast.Load())
+                        self.generic_visit(n)
+                        return n
+
+                body = [S().visit(b) for b in node.body]
+                return ast.For(target=ast.Name(id=jn, ctx=ast.Store()), iter=idx, body=body, orelse=node.orelse, type_comment=None)
+            return node
+
+    fn = T().visit(fn)
+    return ast.fix_missing_locations(fn)
